@@ -83,8 +83,20 @@ Within(m, e, D, s, u2, k, ue) ==
 
 \* ------------------------------------------------------------ decimal text
 IsDig(c) == c >= 48 /\ c <= 57
-RECURSIVE DigEnd(_, _)           \* index of the first non-digit at or after i
-DigEnd(t, i) == IF i <= Len(t) /\ IsDig(t[i]) THEN DigEnd(t, i + 1) ELSE i
+\* index of the first non-digit at or after i - by halving the index range (recursion depth log n: literals of 10^5 characters)
+RECURSIVE FirstNonDig(_, _, _)
+FirstNonDig(t, lo, hi) ==          \* first index in lo..hi holding a non-digit, hi + 1 if there is none
+   IF lo > hi THEN hi + 1
+   ELSE IF lo = hi THEN (IF IsDig(t[lo]) THEN hi + 1 ELSE lo)
+   ELSE LET mid == (lo + hi) \div 2  l == FirstNonDig(t, lo, mid) IN IF l <= mid THEN l ELSE FirstNonDig(t, mid + 1, hi)
+DigEnd(t, i) == FirstNonDig(t, i, Len(t))
+\* first / last index in lo..hi of a sequence of digit values that is not zero (hi + 1 / lo - 1 if all are zero)
+RECURSIVE FirstNZ(_, _, _)
+FirstNZ(ds, lo, hi) == IF lo > hi THEN hi + 1 ELSE IF lo = hi THEN (IF ds[lo] = 0 THEN hi + 1 ELSE lo)
+                       ELSE LET mid == (lo + hi) \div 2  l == FirstNZ(ds, lo, mid) IN IF l <= mid THEN l ELSE FirstNZ(ds, mid + 1, hi)
+RECURSIVE LastNZ(_, _, _)
+LastNZ(ds, lo, hi) == IF lo > hi THEN lo - 1 ELSE IF lo = hi THEN (IF ds[lo] = 0 THEN lo - 1 ELSE lo)
+                      ELSE LET mid == (lo + hi) \div 2  r == LastNZ(ds, mid + 1, hi) IN IF r > mid THEN r ELSE LastNZ(ds, lo, mid)
 DigVals(t, a, b) == [i \in 1..(b - a) |-> t[a + i - 1] - 48]       \* digits t[a..b-1]
 \* [-]digits[.digits] exactly: [ok, neg, ip, fp] with ip / fp the digit value sequences
 PlainDecimal(t) ==
@@ -114,7 +126,7 @@ RenderErrs(x, prec, t) ==
 
 \* ------------------------------------------------------------ C12, parsing: atof32 / atof64 / strtod / atof
 RECURSIVE SatVal(_, _, _)
-SatVal(ds, i, acc) == IF i > Len(ds) THEN acc ELSE SatVal(ds, i + 1, IF acc >= 10000 THEN acc ELSE acc * 10 + ds[i])
+SatVal(ds, i, acc) == IF i > Len(ds) THEN acc ELSE SatVal(ds, i + 1, IF acc >= 100000000 THEN acc ELSE acc * 10 + ds[i])
 \* literal grammar [+-]d*[.d*][(e|E)[+-]d+] with at least one mantissa digit; the longest such prefix is consumed
 Literal(t) ==
    LET hasSign == Len(t) >= 1 /\ t[1] \in {43, 45}
@@ -128,8 +140,8 @@ Literal(t) ==
        es == IF hasE /\ mend + 1 <= Len(t) /\ t[mend + 1] \in {43, 45} THEN mend + 2 ELSE mend + 1
        ee == IF hasE THEN DigEnd(t, es) ELSE mend
        expOK == hasE /\ ee > es
-       \* exponent value, saturated (literals with more than 4 exponent digits are far out of range anyway)
-       \* exponent value, saturated at 10000 and more (far outside every format; leading zeros do not count)
+       \* exponent value, exact up to 10^8 (a written exponent of 100000 can be cancelled by as many leading or trailing zeros of the
+       \* mantissa: it is not "far out of range" by itself); saturated beyond that; leading zeros do not count
        ev == IF expOK THEN SatVal(DigVals(t, es, ee), 1, 0) ELSE 0
        eneg == expOK /\ t[mend + 1] = 45
    IN [ok |-> nd > 0,
@@ -140,25 +152,28 @@ Literal(t) ==
 ParseUlps == 8       \* "a few ulps"
 \* r: returned float (binary32 or binary64 record), end: reported end offset (or -1 when no end pointer was passed)
 \* emin: exponent of the smallest denormal ulp, emax: 2^emax is the first value that overflows, pbits: significand bits
-RECURSIVE AllZero(_)
-AllZero(ds) == ds = <<>> \/ (ds[1] = 0 /\ AllZero(Tail(ds)))
+AllZero(ds) == FirstNZ(ds, 1, Len(ds)) > Len(ds)
 ParseErrs(t, r, end, emin, emax, pbits) ==
    LET L == Literal(t) IN
    IF ~L.ok THEN (IF end # -1 /\ end # 0 THEN {"end"} ELSE {}) \cup (IF r.cls # "fin" \/ r.m # <<>> THEN {"value"} ELSE {})
    ELSE (IF end # -1 /\ end # L.end THEN {"end"} ELSE {})
         \cup (IF AllZero(L.digits) THEN (IF r.cls = "fin" /\ r.m = <<>> THEN {} ELSE {"value"})
-              ELSE LET D == BOfDigits(L.digits)
-                       nd == Len(L.digits)
-                       \* decimal order of magnitude: value < 10^(nd - scale), >= 10^(nd - scale - sigzeros ...)
-                       mag == nd - L.scale
+              ELSE LET \* the significant digits: leading zeros do not change the value, trailing zeros only the scale
+                       fz == FirstNZ(L.digits, 1, Len(L.digits))  lz == LastNZ(L.digits, 1, Len(L.digits))
+                       core == SubSeq(L.digits, fz, lz)
+                       D == BOfDigits(core)
+                       nd == Len(core)
+                       sc == L.scale - (Len(L.digits) - lz)              \* value = core * 10^-sc
+                       \* decimal order of magnitude: 10^(nd - sc - 1) <= value < 10^(nd - sc)
+                       mag == nd - sc
                    IN IF mag > 320 THEN (IF r.cls = "inf" THEN {} ELSE {"overflow_not_inf"})
                       ELSE IF mag < -340 THEN (IF r.cls = "fin" /\ (r.m = <<>> \/ r.e = emin) THEN {} ELSE {"underflow_not_zero"})
                       ELSE IF r.cls = "inf" THEN
                            \* overflow is within tolerance iff the literal is not more than ParseUlps ulps (of the top binade) below 2^emax
-                           (IF Within(BPow2(pbits), emax - pbits, D, L.scale, 0, ParseUlps, emax - pbits)
-                               \/ ~BLeq(BMulPow10(D, MaxI(0 - L.scale, 0)), BMulPow10(BPow2(emax), MaxI(L.scale, 0)))
+                           (IF Within(BPow2(pbits), emax - pbits, D, sc, 0, ParseUlps, emax - pbits)
+                               \/ ~BLeq(BMulPow10(D, MaxI(0 - sc, 0)), BMulPow10(BPow2(emax), MaxI(sc, 0)))
                             THEN {} ELSE {"value"})
                       ELSE IF r.cls # "fin" THEN {"value"}
                       ELSE (IF (r.neg = 1) # L.neg THEN {"sign"} ELSE {})
-                           \cup (IF ~Within(r.m, r.e, D, L.scale, 0, ParseUlps, r.e) THEN {"inaccurate"} ELSE {}))
+                           \cup (IF ~Within(r.m, r.e, D, sc, 0, ParseUlps, r.e) THEN {"inaccurate"} ELSE {}))
 =============================================================================
